@@ -197,6 +197,19 @@ def one(task):
     return r
 
 
-def run_tables(tasks, jobs=14):
-    with cf.ProcessPoolExecutor(max_workers=jobs) as ex:
-        return list(ex.map(one, tasks))
+def run_tables(tasks, jobs=14, per_task_timeout=900):
+    """A task that does not come back within the limit (or whose worker dies) is reported as such -
+    the check then ends inconclusive instead of hanging."""
+    import multiprocessing as mp
+    out = [None] * len(tasks)
+    ctx = mp.get_context("fork")
+    with ctx.Pool(processes=jobs, maxtasksperchild=20) as pool:
+        handles = [pool.apply_async(one, (t,)) for t in tasks]
+        deadline = time.time() + per_task_timeout + 60 * (1 + len(tasks) // max(1, jobs))
+        for i, h in enumerate(handles):
+            try:
+                out[i] = h.get(timeout=max(5, min(per_task_timeout, deadline - time.time())))
+            except Exception as e:
+                out[i] = dict(tasks[i], status="worker_failed", error="%s: %s" % (type(e).__name__, str(e)[:200]), reason="worker failed or timed out")
+        pool.terminate()
+    return out
